@@ -125,16 +125,19 @@ def run(ctx):
 
         def len_guard(test, k):
             """test guarantees len(tokens) > k"""
+            def is_len(x):
+                return isinstance(x, ast.Call) and isinstance(x.func, ast.Name) and x.func.id == "len" and x.args and is_tokens(x.args[0])
             for c in ast.walk(test):
-                if isinstance(c, ast.Compare) and len(c.ops) == 1 and isinstance(c.left, ast.Call) and isinstance(c.left.func, ast.Name) \
-                        and c.left.func.id == "len" and c.left.args and is_tokens(c.left.args[0]):
-                    v = rules.const_value(c.comparators[0])
-                    if v is None:
-                        continue
-                    if isinstance(c.ops[0], ast.Gt) and v >= k:
-                        return True
-                    if isinstance(c.ops[0], ast.GtE) and v >= k + 1:
-                        return True
+                if isinstance(c, ast.Compare) and len(c.ops) == 1:
+                    l, r, op = c.left, c.comparators[0], c.ops[0]
+                    if is_len(l):
+                        v = rules.const_value(r)
+                        if v is not None and ((isinstance(op, ast.Gt) and v >= k) or (isinstance(op, ast.GtE) and v >= k + 1)):
+                            return True
+                    elif is_len(r):           # the same test with the operands the other way round
+                        v = rules.const_value(l)
+                        if v is not None and ((isinstance(op, ast.Lt) and v >= k) or (isinstance(op, ast.LtE) and v >= k + 1)):
+                            return True
             return False
         for n in ast.walk(fq.node):
             if isinstance(n, ast.Subscript) and is_tokens(n.value):
